@@ -15,6 +15,7 @@ import (
 	"fmt"
 	"io"
 	"math/big"
+	"testing/iotest"
 	"time"
 
 	"github.com/lestrrat-go/jwx/v2/jwk"
@@ -22,6 +23,7 @@ import (
 	"github.com/dapr/kit/config"
 	kitcrypto "github.com/dapr/kit/crypto"
 	kitpem "github.com/dapr/kit/crypto/pem"
+	"github.com/dapr/kit/crypto/spiffe/trustanchors"
 	"github.com/dapr/kit/metadata"
 	encv1 "github.com/dapr/kit/schemes/enc/v1"
 	"github.com/dapr/kit/streams"
@@ -53,91 +55,126 @@ var contentTypes = []string{"", "application/json", "application/x-pem-file", "a
 var allAlgs = []string{"RS256", "RS384", "RS512", "PS256", "PS384", "PS512", "ES256", "ES384", "ES512", "EdDSA",
 	"RSA1_5", "RSA-OAEP", "RSA-OAEP-256", "RSA-OAEP-384", "RSA-OAEP-512", "A256KW", "A128GCM", "A128CBC", "C20P", "A128CBC-HS256", "ECDH-ES"}
 
-// useKey pushes a parsed key through every kit entry point that takes a jwk.Key.
-func useKey(key jwk.Key) {
-	_, _ = kitcrypto.SerializeKey(key)
-	if pub, err := key.PublicKey(); err == nil {
-		_, _ = kitcrypto.SerializeKey(pub)
-	}
+// keyCalls: a parsed key pushed through every kit entry point that takes a jwk.Key, one guarded
+// call per entry point and algorithm.
+func keyCalls(key jwk.Key) []epCall {
 	digest := make([]byte, 32)
-	for _, alg := range allAlgs {
-		if sig, err := kitcrypto.SignPrivateKey(digest, alg, key); err == nil {
-			_, _ = kitcrypto.VerifyPublicKey(digest, sig, alg, key)
-		}
-		_, _ = kitcrypto.VerifyPublicKey(digest, make([]byte, 64), alg, key)
-		_, _ = kitcrypto.VerifyPublicKey(digest, nil, alg, key)
-		ct, tag, err := kitcrypto.Encrypt([]byte("0123456789abcdef"), alg, key, make([]byte, 12), nil)
-		if err == nil {
-			_, _ = kitcrypto.Decrypt(ct, alg, key, make([]byte, 12), tag, nil)
-		}
-		_, _ = kitcrypto.Decrypt(make([]byte, 32), alg, key, make([]byte, 16), make([]byte, 16), nil)
-		_, _ = kitcrypto.Decrypt(nil, alg, key, nil, nil, nil)
+	calls := []epCall{
+		{"crypto.SerializeKey", func() error { _, err := kitcrypto.SerializeKey(key); return err }},
+		{"crypto.SerializeKey", func() error {
+			pub, err := key.PublicKey()
+			if err != nil {
+				return err
+			}
+			_, err = kitcrypto.SerializeKey(pub)
+			return err
+		}},
 	}
+	for _, alg := range allAlgs {
+		alg := alg
+		calls = append(calls,
+			epCall{"crypto.SignPrivateKey", func() error {
+				sig, err := kitcrypto.SignPrivateKey(digest, alg, key)
+				if err == nil {
+					_, err = kitcrypto.VerifyPublicKey(digest, sig, alg, key)
+				}
+				return err
+			}},
+			epCall{"crypto.VerifyPublicKey", func() error {
+				_, err := kitcrypto.VerifyPublicKey(digest, make([]byte, 64), alg, key)
+				_, _ = kitcrypto.VerifyPublicKey(digest, nil, alg, key)
+				return err
+			}},
+			epCall{"crypto.Encrypt", func() error {
+				ct, tag, err := kitcrypto.Encrypt([]byte("0123456789abcdef"), alg, key, make([]byte, 12), nil)
+				if err == nil {
+					_, err = kitcrypto.Decrypt(ct, alg, key, make([]byte, 12), tag, nil)
+				}
+				return err
+			}},
+			epCall{"crypto.Decrypt", func() error {
+				_, err := kitcrypto.Decrypt(make([]byte, 32), alg, key, make([]byte, 16), make([]byte, 16), nil)
+				_, _ = kitcrypto.Decrypt(nil, alg, key, nil, nil, nil)
+				return err
+			}})
+	}
+	return calls
 }
 
 func runParseKey(ctx *core.Ctx, in input) {
 	ct := contentTypes[in.Which%len(contentTypes)]
-	parsed := false
-	o := guard(callDeadline, func() ([]int64, error) {
-		key, err := kitcrypto.ParseKey(in.Data, ct)
-		if err != nil {
-			return nil, err
-		}
-		parsed = true
-		useKey(key)
-		return nil, nil
+	var key jwk.Key
+	o := guard("crypto.ParseKey", callDeadline, func() ([]int64, error) {
+		k, err := kitcrypto.ParseKey(in.Data, ct)
+		key = k
+		return nil, err
 	})
+	parsed := o.cls == clsOk && key != nil
+	if parsed {
+		o = guardAll(keyCalls(key))
+	}
 	emitC(ctx, in, o, fmt.Sprintf("parsekey/%s/%s/%v", in.Shape, ct, parsed))
 }
 
+// every PEM-consuming entry point of kit on one document
 func runCerts(ctx *core.Ctx, in input) {
-	o := guard(callDeadline, func() ([]int64, error) {
-		certs, err := kitpem.DecodePEMCertificates(in.Data)
-		_, err2 := kitpem.DecodePEMCertificatesChain(in.Data)
-		_, _ = kitpem.DecodePEMPrivateKey(in.Data)
-		if err == nil {
-			_, _ = kitpem.EncodeX509Chain(certs)
+	var certs []*x509.Certificate
+	calls := []epCall{
+		{"pem.DecodePEMCertificates", func() error {
+			c, err := kitpem.DecodePEMCertificates(in.Data)
+			certs = c
+			return err
+		}},
+		{"pem.DecodePEMCertificatesChain", func() error { _, err := kitpem.DecodePEMCertificatesChain(in.Data); return err }},
+		{"pem.DecodePEMPrivateKey", func() error { _, err := kitpem.DecodePEMPrivateKey(in.Data); return err }},
+		{"trustanchors.FromStatic", func() error { _, err := trustanchors.FromStatic(in.Data); return err }},
+		{"utils.IsValidPEM", func() error { _ = utils.IsValidPEM(string(in.Data)); return nil }},
+		{"pem.EncodeX509Chain", func() error {
+			if len(certs) == 0 {
+				return nil
+			}
+			_, err := kitpem.EncodeX509Chain(certs)
 			for _, c := range certs {
 				_, _ = kitpem.EncodeX509(c)
 				_, _ = kitpem.PublicKeysEqual(c.PublicKey, certs[0].PublicKey)
 			}
-		}
-		return nil, errors.Join(err, err2)
-	})
+			return err
+		}},
+	}
+	o := guardAll(calls)
 	emitC(ctx, in, o, "certs/"+in.Shape+"/"+o.name())
 }
 
 func runPemUtil(ctx *core.Ctx, in input) {
-	o := guard(callDeadline, func() ([]int64, error) {
+	o := guardAll([]epCall{{"utils.GetPEM", func() error {
 		s := string(in.Data)
-		ok := utils.IsValidPEM(s)
-		if !ok {
+		if !utils.IsValidPEM(s) {
 			// GetPEM reads the named file when the value is not PEM: only paths that cannot name
 			// a device or pipe (see the exclusions)
 			s = "/nonexistent-c07/" + s
 		}
 		_, err := utils.GetPEM(s)
-		return nil, err
-	})
+		return err
+	}}})
 	emitC(ctx, in, o, "pemutil/"+in.Shape+"/"+o.name())
 }
 
 type mdFuzzTarget struct {
-	Name      string            `mapstructure:"name"`
-	Timeout   time.Duration     `mapstructure:"timeout"`
-	PTimeout  *time.Duration    `mapstructure:"ptimeout"`
-	KTimeout  metadata.Duration `mapstructure:"ktimeout"`
-	Timeouts  []time.Duration   `mapstructure:"timeouts"`
-	PTimeouts *[]time.Duration  `mapstructure:"ptimeouts"`
-	Count     int               `mapstructure:"count"`
-	Small     int8              `mapstructure:"small"`
-	U         uint16            `mapstructure:"u"`
-	F         float32           `mapstructure:"f"`
-	Enabled   bool              `mapstructure:"enabled"`
-	PEnabled  *bool             `mapstructure:"penabled"`
-	Tags      []string          `mapstructure:"tags"`
-	PTags     *[]string         `mapstructure:"ptags"`
-	Size      metadata.ByteSize `mapstructure:"size"`
+	Name      string             `mapstructure:"name"`
+	Timeout   time.Duration      `mapstructure:"timeout"`
+	PTimeout  *time.Duration     `mapstructure:"ptimeout"`
+	KTimeout  metadata.Duration  `mapstructure:"ktimeout"`
+	Timeouts  []time.Duration    `mapstructure:"timeouts"`
+	PTimeouts *[]time.Duration   `mapstructure:"ptimeouts"`
+	Count     int                `mapstructure:"count"`
+	Small     int8               `mapstructure:"small"`
+	U         uint16             `mapstructure:"u"`
+	F         float32            `mapstructure:"f"`
+	Enabled   bool               `mapstructure:"enabled"`
+	PEnabled  *bool              `mapstructure:"penabled"`
+	Tags      []string           `mapstructure:"tags"`
+	PTags     *[]string          `mapstructure:"ptags"`
+	Size      metadata.ByteSize  `mapstructure:"size"`
 	PSize     *metadata.ByteSize `mapstructure:"psize"`
 	Nested    struct {
 		A string `mapstructure:"a"`
@@ -154,19 +191,21 @@ func runMdFuzz(ctx *core.Ctx, in input) {
 	if err := json.Unmarshal(in.Data, &m); err != nil {
 		return
 	}
-	o := guard(callDeadline, func() ([]int64, error) {
-		var t mdFuzzTarget
-		err := metadata.DecodeMetadata(m, &t)
-		_, _ = metadata.GetMetadataProperty(m, mdKeys...)
-		_ = metadata.Properties(m).Decode(&t)
-		_, _ = t.Size.GetBytes()
-		_ = t.KTimeout.ToISOString()
-		for _, v := range m {
-			var d metadata.Duration
-			_ = d.UnmarshalJSON([]byte(v))
-			_ = utils.IsTruthy(v)
-		}
-		return nil, err
+	var t mdFuzzTarget
+	o := guardAll([]epCall{
+		{"metadata.DecodeMetadata", func() error { return metadata.DecodeMetadata(m, &t) }},
+		{"metadata.GetMetadataProperty", func() error { _, _ = metadata.GetMetadataProperty(m, mdKeys...); return nil }},
+		{"metadata.Properties.Decode", func() error { var t2 mdFuzzTarget; return metadata.Properties(m).Decode(&t2) }},
+		{"metadata.ByteSize.GetBytes", func() error { _, err := t.Size.GetBytes(); return err }},
+		{"metadata.Duration.ToISOString", func() error { _ = t.KTimeout.ToISOString(); return nil }},
+		{"metadata.Duration.UnmarshalJSON", func() error {
+			for _, v := range m {
+				var d metadata.Duration
+				_ = d.UnmarshalJSON([]byte(v))
+				_ = utils.IsTruthy(v)
+			}
+			return nil
+		}},
 	})
 	emitC(ctx, in, o, "mdfuzz/"+in.Shape+"/"+o.name())
 }
@@ -200,6 +239,13 @@ func yamlish(v any, flip *int) any {
 	return v
 }
 
+type cfgFuzzOut struct {
+	cfgTarget `mapstructure:",squash"`
+	Nested    cfgTarget            `mapstructure:"nested"`
+	List      []cfgTarget          `mapstructure:"list"`
+	M         map[string]cfgTarget `mapstructure:"m"`
+}
+
 func runCfgFuzz(ctx *core.Ctx, in input) {
 	var doc any
 	if err := json.Unmarshal(in.Data, &doc); err != nil {
@@ -207,18 +253,12 @@ func runCfgFuzz(ctx *core.Ctx, in input) {
 	}
 	flip := in.Which
 	doc = yamlish(doc, &flip)
-	o := guard(callDeadline, func() ([]int64, error) {
-		norm, err := config.Normalize(doc)
-		_, _ = config.PrefixedBy(doc, "my")
-		var out struct {
-			cfgTarget `mapstructure:",squash"`
-			Nested    cfgTarget            `mapstructure:"nested"`
-			List      []cfgTarget          `mapstructure:"list"`
-			M         map[string]cfgTarget `mapstructure:"m"`
-		}
-		err2 := config.Decode(norm, &out)
-		_ = config.Decode(doc, &out)
-		return nil, errors.Join(err, err2)
+	var norm any
+	o := guardAll([]epCall{
+		{"config.PrefixedBy", func() error { _, err := config.PrefixedBy(doc, "my"); return err }},
+		{"config.Decode", func() error { var out cfgFuzzOut; return config.Decode(doc, &out) }},
+		{"config.Normalize", func() error { n, err := config.Normalize(doc); norm = n; return err }},
+		{"config.Decode", func() error { var out cfgFuzzOut; return config.Decode(norm, &out) }},
 	})
 	emitC(ctx, in, o, "cfgfuzz/"+in.Shape+"/"+o.name())
 }
@@ -239,39 +279,76 @@ func encDocValid(plaintext []byte, cipher encv1.Cipher) ([]byte, error) {
 	return io.ReadAll(out)
 }
 
+// failAfter delivers the first n bytes and then an error TOGETHER with the last chunk
+type failAfter struct {
+	b []byte
+	n int
+}
+
+var errScripted = errors.New("scripted read failure")
+
+func (f *failAfter) Read(p []byte) (int, error) {
+	if f.n <= 0 || len(f.b) == 0 {
+		return 0, errScripted
+	}
+	k := minInt(minInt(len(p), f.n), len(f.b))
+	copy(p, f.b[:k])
+	f.b, f.n = f.b[k:], f.n-k
+	if f.n == 0 || len(f.b) == 0 {
+		return k, errScripted
+	}
+	return k, nil
+}
+
+// encReader: how the document reaches Decrypt (in.Which): all at once, byte by byte, the last
+// data together with io.EOF, in halves, or cut by an error delivered together with data
+func encReader(in input) io.Reader {
+	switch in.Which {
+	case 1:
+		return iotest.OneByteReader(bytes.NewReader(in.Data))
+	case 2:
+		return iotest.DataErrReader(bytes.NewReader(in.Data))
+	case 3:
+		return iotest.HalfReader(bytes.NewReader(in.Data))
+	case 4:
+		return &failAfter{b: in.Data, n: in.Size}
+	case 5:
+		return iotest.DataErrReader(iotest.OneByteReader(bytes.NewReader(in.Data)))
+	}
+	return bytes.NewReader(in.Data)
+}
+
 func runEncDoc(ctx *core.Ctx, in input) {
 	kekKey, _ := jwk.FromRaw(kek)
-	o := guard(callDeadline, func() ([]int64, error) {
-		out, err := encv1.Decrypt(bytes.NewReader(in.Data), encv1.DecryptOptions{
+	o := guardAll([]epCall{{"encv1.Decrypt", func() error {
+		out, err := encv1.Decrypt(encReader(in), encv1.DecryptOptions{
 			UnwrapKeyFn: func(wk []byte, alg, name string, nonce, tag []byte) ([]byte, error) {
 				return kitcrypto.DecryptSymmetric(wk, alg, kekKey, nonce, tag, nil)
 			},
 		})
 		if err != nil {
-			return nil, err
+			return err
 		}
 		_, err = io.Copy(io.Discard, out)
-		return nil, err
-	})
+		return err
+	}}})
 	emitC(ctx, in, o, "encdoc/"+in.Shape+"/"+o.name())
 }
 
 func runTimeParse(ctx *core.Ctx, in input) {
 	s := string(in.Data)
-	o := guard(callDeadline, func() ([]int64, error) {
-		off := time.Unix(in.T, 0).UTC()
-		_, err := kittime.ParseTime(s, &off)
-		_, _, _, _, _, err2 := kittime.ParseDuration(s)
-		return nil, errors.Join(err, err2)
+	o := guardAll([]epCall{
+		{"time.ParseTime", func() error { off := time.Unix(in.T, 0).UTC(); _, err := kittime.ParseTime(s, &off); return err }},
+		{"time.ParseDuration", func() error { _, _, _, _, _, err := kittime.ParseDuration(s); return err }},
 	})
 	emitC(ctx, in, o, "timeparse/"+in.Shape+"/"+o.name())
 }
 
 func runUpper(ctx *core.Ctx, in input) {
-	o := guard(callDeadline, func() ([]int64, error) {
-		_, err := io.ReadAll(streams.UppercaseTransformer(bytes.NewReader(in.Data)))
-		return nil, err
-	})
+	o := guardAll([]epCall{{"streams.UppercaseTransformer", func() error {
+		_, err := io.ReadAll(streams.UppercaseTransformer(encReader(in)))
+		return err
+	}}})
 	emitC(ctx, in, o, "upper/"+o.name())
 }
 
